@@ -210,7 +210,7 @@ class Runner(object):
         self.obs.append(r)
         return r
 
-    def probe_typelib(self, cid, typelib, n, probes):
+    def probe_typelib(self, cid, typelib, n, probes, history=''):
         """probes: list of (kind 'N'|'G'|'E', string, isMember, expected list).  Returns header dict or None."""
         d = os.path.dirname(typelib) if typelib.startswith(self.ck.tmp) else self.ck.tmp
         pf = os.path.join(d, cid.replace('/', '_') + '.probes')
@@ -220,6 +220,8 @@ class Runner(object):
         env = None
         if not typelib.startswith(self.ck.tmp):     # system typelib: its dependencies must be loadable
             env = dict(self.env, GI_TYPELIB_PATH=os.path.dirname(typelib))
+        if history:
+            env = dict(env or self.env, DRV_LOOKUP_HISTORY=history)
         p = self.run([self.lookup, 'probe', typelib, pf], env=env)
         os.unlink(pf)
         lines = p.stdout.decode('utf-8', 'replace').split('\n')
@@ -308,6 +310,12 @@ class Runner(object):
                 for s in absent_probes(list(table), min(2 * len(table), ca), other + cross, rng):
                     probes.append((k, s, False, []))
         hdr = self.probe_typelib(cid, out, n, probes)
+        if n <= 300 and only_probes is None:
+            # repository-level lookups must not depend on the HISTORY of the process: every probe asked
+            # once before the typelib is registered (negative caches filled), then registered eagerly /
+            # lazily (tla/GTypeCache.tla); the same clauses judge the answers given afterwards
+            for hist in ('pre', 'pre-lazy'):
+                self.probe_typelib(cid + '/h:' + hist, out, n, probes, history=hist)
         if hdr:
             b.update(hasIndex=hdr['hasIndex'], dirmapReal=hdr['dirmap'],
                      packedReal=(hdr['length'] - hdr['sec_off']) if hdr['hasIndex'] else 0)
@@ -412,6 +420,13 @@ def run():
             r = ck.tlc_mc('DirIndexMC', cfg, workers=1, timeout=170, coverage=False, expect_ok=False, label='what-if: ' + what)
             if r.get('violated') != 'Inv_AbsentIsAbsent':
                 raise MachineryError('what-if %s did not violate AbsentIsAbsent (model vacuous?): %s' % (cfg, r.get('error')))
+        # repository level: the negative GType cache over every history of lookups and (eager / lazy) registrations
+        ck.tlc_mc('GTypeCacheMC', 'GTypeCache_q.cfg', workers=2, timeout=600, coverage=False,
+                  label='every history of find_by_gtype / register (eager, lazy): repository answer = typelib-level truth')
+        r = ck.tlc_mc('GTypeCacheMC', 'GTypeCache_w_lazy.cfg', workers=1, timeout=600, coverage=False, expect_ok=False,
+                      label='what-if: a lazy registration that does not clear the negative cache')
+        if r.get('violated') not in ('CacheSound', 'RepoAgrees'):
+            raise MachineryError('what-if GTypeCache_w_lazy did not violate CacheSound/RepoAgrees: %s' % r.get('error'))
         # as-is arithmetic (guint16 required_size): TLC exhibits the smallest n whose index cannot be built
         r = ck.tlc_mc('DirIndexMC', 'DirIndex_bisect16.cfg', workers=1, timeout=170, coverage=False, expect_ok=False,
                       label='as-is size arithmetic (guint16 required_size): bisection for the smallest n in 1..65535 that breaks IndexBuilt')
